@@ -313,6 +313,9 @@ impl<B: TextWriter> DecimalParser<B> {
             DecimalParserInner::Finite(finite) => Ok(ParsedDecimal::Finite(finite.end()?)),
             DecimalParserInner::Infinity(infinity) => Ok(ParsedDecimal::Infinity(infinity.end()?)),
             DecimalParserInner::Nan(nan) => Ok(ParsedDecimal::Nan(nan.end()?)),
+            DecimalParserInner::AtStart {
+                error: Some(err), ..
+            } => Err(err),
             DecimalParserInner::AtStart { .. } => Err(ParseError::unexpected_end(
                 "a finite number, infinity, or NaN",
             )),
@@ -346,6 +349,18 @@ impl<B: TextWriter> DecimalParser<B> {
 
 impl<B: TextWriter> Write for DecimalParser<B> {
     fn write_str(&mut self, s: &str) -> fmt::Result {
+        // Once parsing has failed, the parser stays failed
+        let has_error = match self.0 {
+            DecimalParserInner::AtStart { ref error, .. } => error.is_some(),
+            DecimalParserInner::Finite(ref parser) => parser.has_error(),
+            DecimalParserInner::Infinity(ref parser) => parser.has_error(),
+            DecimalParserInner::Nan(ref parser) => parser.has_error(),
+        };
+
+        if has_error {
+            return Err(fmt::Error);
+        }
+
         self.parse_ascii(s.as_bytes())
             .map_err(|err| self.context(err))
     }
